@@ -270,7 +270,7 @@ func randDriver(n int, outPath, repo string) {
 
 func main() {
 	if len(os.Args) < 3 {
-		kit.Fatalf("usage: c10 bin|progs|rand|json|parse ...")
+		kit.Fatalf("usage: c10 bin|progs|rand|json|demo ...")
 	}
 	switch os.Args[1] {
 	case "bin":
@@ -287,8 +287,6 @@ func main() {
 		jsonCases(os.Args[2], os.Args[3])
 	case "demo":
 		demo(os.Args[2])
-	case "parse":
-		parseOnly(kit.Atoi(os.Args[2]), os.Args[3] == "1", os.Args[4], os.Args[5])
 	default:
 		kit.Fatalf("unknown mode %q", os.Args[1])
 	}
